@@ -50,6 +50,17 @@ pub enum Disc {
     CloneIfNecessary,
     /// transient: every injection is a fresh value
     Fresh,
+    /// request-scoped, never cloned: pre-/post-processing middlewares and handlers take it by `&mut`
+    /// or `&`, constructors by `&`; wrapping middlewares never touch it (documented: "No mutations",
+    /// dependency_injection/constructors.md and middleware/wrapping.md). Outside the class of C02.
+    MutShared,
+}
+
+/// Optional widenings of the rule-abiding class.
+#[derive(Clone, Copy, Debug, Default)]
+pub struct Ext {
+    /// allow `Disc::MutShared` values (legal `&mut` injection)
+    pub mut_refs: bool,
 }
 
 fn pick(raw: u16, len: usize) -> usize {
@@ -64,6 +75,10 @@ pub struct Built {
 /// Build an application inside the class "follows every documented rule, ownership trivially
 /// satisfiable" (C02). Everything is by construction; nothing is rejected.
 pub fn build_abiding(g: &Genome) -> Built {
+    build_abiding_ext(g, Ext::default())
+}
+
+pub fn build_abiding_ext(g: &Genome, ext: Ext) -> Built {
     let n_errs = (g.n_errs % 3) as usize + 1;
     let mut types: Vec<TypeSpec> = vec![];
     let mut discs: Vec<Disc> = vec![];
@@ -76,6 +91,8 @@ pub fn build_abiding(g: &Genome) -> Built {
     enum Consumer {
         Ctor(Life),
         Middleware,
+        /// a wrapping middleware: whatever it borrows stays borrowed while everything downstream runs
+        Wrap,
         Handler,
         ErrOrObs,
     }
@@ -109,12 +126,17 @@ pub fn build_abiding(g: &Genome) -> Built {
             if t.life == Life::Singleton {
                 return Some(Mode::Ref);
             }
-            let borrowable = matches!(discs[j], Disc::BorrowOnly | Disc::Copy | Disc::CloneIfNecessary | Disc::Fresh);
+            let borrowable = matches!(discs[j], Disc::BorrowOnly | Disc::Copy | Disc::CloneIfNecessary | Disc::Fresh | Disc::MutShared);
             return if borrowable && !can_fail_at_request_time(j, types) { Some(Mode::Ref) } else { None };
         }
         match discs[j] {
             Disc::BorrowOnly => Some(Mode::Ref),
             Disc::Copy | Disc::CloneIfNecessary | Disc::Fresh => Some(if want_move { Mode::Move } else { Mode::Ref }),
+            Disc::MutShared => match consumer {
+                Consumer::Middleware | Consumer::Handler => Some(if want_move { Mode::Mut } else { Mode::Ref }),
+                Consumer::Ctor(Life::Request) | Consumer::Ctor(Life::Transient) => Some(Mode::Ref),
+                _ => None,
+            },
             Disc::MoveOnce => {
                 let eligible = matches!(consumer, Consumer::Handler | Consumer::Ctor(Life::Request));
                 if eligible && !claimed[j] {
@@ -134,6 +156,7 @@ pub fn build_abiding(g: &Genome) -> Built {
         }
         let disc = match life {
             Life::Singleton => [Disc::BorrowOnly, Disc::Copy, Disc::CloneIfNecessary][tg.disc as usize % 3],
+            Life::Request if ext.mut_refs && tg.disc % 5 == 4 => Disc::MutShared,
             Life::Request => [Disc::BorrowOnly, Disc::MoveOnce, Disc::Copy, Disc::CloneIfNecessary, Disc::BorrowOnly][tg.disc as usize % 5],
             Life::Transient => Disc::Fresh,
         };
@@ -153,6 +176,17 @@ pub fn build_abiding(g: &Genome) -> Built {
         }
         // a singleton whose constructor returns a Result fails (if ever) in ApplicationState::new; a third of the fallible genes keep it
         let fallible = if tg.fallible && (life != Life::Singleton || tg.disc % 3 == 1) { Some(i % n_errs) } else { None };
+        // two thirds of the eligible types carry a lifetime: they hold a reference to one of the values
+        // their constructor borrows (a value that is only ever borrowed, or Copy, or clone-if-necessary:
+        // keeping it borrowed can always be satisfied)
+        let view_of = if life != Life::Singleton && matches!(disc, Disc::BorrowOnly | Disc::MoveOnce | Disc::Fresh) && (tg.life / 4) % 3 != 2 {
+            inputs
+                .iter()
+                .find(|(j, m)| *m == Mode::Ref && types[*j].view_of.is_none() && (types[*j].life == Life::Singleton || matches!(discs[*j], Disc::BorrowOnly | Disc::Copy | Disc::CloneIfNecessary)))
+                .map(|(j, _)| *j)
+        } else {
+            None
+        };
         types.push(TypeSpec {
             life,
             is_clone: matches!(disc, Disc::CloneIfNecessary) || (disc == Disc::Fresh && tg.disc % 2 == 0),
@@ -174,6 +208,7 @@ pub fn build_abiding(g: &Genome) -> Built {
             attr_clone: None,
             allow_unused: false,
             v1_flip: false,
+            view_of,
         });
         discs.push(disc);
         claimed.push(false);
@@ -195,6 +230,7 @@ pub fn build_abiding(g: &Genome) -> Built {
             attr_clone: None,
             allow_unused: false,
             v1_flip: false,
+            view_of: None,
         });
         discs.push(Disc::BorrowOnly);
         claimed.push(false);
@@ -230,7 +266,7 @@ pub fn build_abiding(g: &Genome) -> Built {
     let mut mw_idx = vec![];
     for cg in g.mws.iter().take(6) {
         let kind = [CompKind::Pre, CompKind::Post, CompKind::Wrap][cg.kind as usize % 3].clone();
-        let inputs = comp_inputs(cg, Consumer::Middleware, &types, &discs, &mut claimed, &mut used_by_non_handler);
+        let inputs = comp_inputs(cg, if kind == CompKind::Wrap { Consumer::Wrap } else { Consumer::Middleware }, &types, &discs, &mut claimed, &mut used_by_non_handler);
         let fallible = if cg.fallible { Some(cg.kind as usize % n_errs) } else { None };
         let is_async = cg.is_async || kind == CompKind::Wrap;
         mw_idx.push(comps.len());
@@ -277,7 +313,7 @@ pub fn build_abiding(g: &Genome) -> Built {
         let mut hot = (0..n).find(|t| discs[*t] == Disc::CloneIfNecessary && types[*t].life == Life::Request);
         if hot.is_none() {
             // promote a borrow-only request-scoped type (its existing users only borrow it)
-            if let Some(t) = (0..n).find(|t| discs[*t] == Disc::BorrowOnly && types[*t].life == Life::Request) {
+            if let Some(t) = (0..n).find(|t| discs[*t] == Disc::BorrowOnly && types[*t].life == Life::Request && types[*t].view_of.is_none()) {
                 discs[t] = Disc::CloneIfNecessary;
                 types[t].is_clone = true;
                 types[t].clone_if_necessary = Some(true);
@@ -311,7 +347,7 @@ pub fn build_abiding(g: &Genome) -> Built {
             let kind = ((raw / 4) % 3) as u8;
             let inner = pick(raw / 12, n);
             let borrowable = matches!(discs[inner], Disc::BorrowOnly | Disc::Copy | Disc::CloneIfNecessary) || types[inner].life == Life::Singleton;
-            let life_ok = kind != 0 || types[inner].life == Life::Singleton;
+            let life_ok = (kind != 0 || types[inner].life == Life::Singleton) && types[inner].view_of.is_none();
             if borrowable && life_ok && !c.gens.contains(&(kind, inner)) {
                 c.gens.push((kind, inner));
                 if c.kind != CompKind::Handler {
@@ -1109,6 +1145,7 @@ pub fn plant(base: &AppSpec, rule: usize, raw: u16) -> Option<Planted> {
                 attr_clone: None,
                 allow_unused: false,
                 v1_flip: false,
+                view_of: None,
             });
             spec.bp.insert(0, Reg::Ctor { ty: t, variant: 0 });
             spec.comps[c].inputs.push((t, Mode::Move));
@@ -1335,6 +1372,7 @@ pub fn apply_attr_styles(base: &AppSpec, raw: u64) -> Styled {
             attr_clone: None,
             allow_unused: allow,
             v1_flip: false,
+            view_of: None,
         });
         spec.bp.insert(0, Reg::Ctor { ty: i, variant: 0 });
         unused.push((i, allow));
@@ -1372,6 +1410,7 @@ pub fn build_stage_stress(raw: u64) -> AppSpec {
         attr_clone: None,
         allow_unused: false,
         v1_flip: false,
+        view_of: None,
     };
     // T0: request-scoped clone-if-necessary; T1: singleton clone-if-necessary; T2: request-scoped Copy; T3: transient built from &T0
     let mut types = vec![mk_type(Life::Request, false), mk_type(Life::Singleton, false), mk_type(Life::Request, true)];
@@ -1493,6 +1532,7 @@ pub fn build_naming_stress(raw: u64) -> AppSpec {
             attr_clone: None,
             allow_unused: false,
             v1_flip: false,
+            view_of: None,
         });
     }
     let n_errs = n_single;
@@ -1520,4 +1560,120 @@ pub fn build_naming_stress(raw: u64) -> AppSpec {
         });
     }
     AppSpec { peel: false, types, n_errs, comps, bp, note: "abiding (naming stress)".into() }
+}
+
+// ------------------------------------------------------------------------------------------
+// Wild applications (C01): a rule-abiding application with one to three random edits of its
+// ownership structure. Nothing is promised about the compiler's verdict on these; what is promised
+// (C01) is that *if* it accepts, the generated SDK compiles, and (C03/C04) behaves.
+// ------------------------------------------------------------------------------------------
+
+pub fn wildify(base: &AppSpec, raw: u64) -> AppSpec {
+    let mut spec = base.clone();
+    let mut s = raw | 1;
+    let mut next = move || {
+        s ^= s << 13;
+        s ^= s >> 7;
+        s ^= s << 17;
+        (s >> 9) as usize
+    };
+    let n_edits = 1 + next() % 3;
+    let mut done: Vec<String> = vec![];
+    let pipeline: Vec<usize> = (0..spec.comps.len()).filter(|c| matches!(spec.comps[*c].kind, CompKind::Pre | CompKind::Post | CompKind::Wrap | CompKind::Handler)).collect();
+    let root_visible: Vec<usize> = spec.bp.iter().filter_map(|r| if let Reg::Ctor { ty, .. } = r { Some(*ty) } else { None }).collect();
+    for _ in 0..n_edits * 3 {
+        if done.len() >= n_edits {
+            break;
+        }
+        match next() % 7 {
+            0 | 1 => {
+                // change how a request-time component takes one of its inputs
+                let sites: Vec<(usize, usize)> = pipeline.iter().flat_map(|c| (0..spec.comps[*c].inputs.len()).map(move |i| (*c, i))).collect();
+                if sites.is_empty() {
+                    continue;
+                }
+                let (c, i) = sites[next() % sites.len()];
+                let old = spec.comps[c].inputs[i].1;
+                let new = match (old, next() % 3) {
+                    (Mode::Ref, 0) => Mode::Move,
+                    (Mode::Ref, _) => Mode::Mut,
+                    (Mode::Move, 0) => Mode::Mut,
+                    (Mode::Move, _) => Mode::Ref,
+                    (Mode::Mut, 0) => Mode::Move,
+                    (Mode::Mut, _) => Mode::Ref,
+                };
+                spec.comps[c].inputs[i].1 = new;
+                done.push(format!("x{c} takes T{} as {new:?} instead of {old:?}", spec.comps[c].inputs[i].0));
+            }
+            2 => {
+                // a constructor takes an input by value instead of by reference, or the other way round
+                let sites: Vec<(usize, usize)> = (0..spec.types.len()).flat_map(|t| (0..spec.types[t].inputs.len()).map(move |i| (t, i))).filter(|(t, i)| spec.types[*t].view_of != Some(spec.types[*t].inputs[*i].0)).collect();
+                if sites.is_empty() {
+                    continue;
+                }
+                let (t, i) = sites[next() % sites.len()];
+                let old = spec.types[t].inputs[i].1;
+                let new = if old == Mode::Ref { Mode::Move } else { Mode::Ref };
+                spec.types[t].inputs[i].1 = new;
+                done.push(format!("the constructor of T{t} takes T{} as {new:?} instead of {old:?}", spec.types[t].inputs[i].0));
+            }
+            3 => {
+                // cloning policy flipped
+                let cands: Vec<usize> = (0..spec.types.len()).filter(|t| !spec.types[*t].is_copy && !spec.types[*t].prebuilt && spec.types[*t].life != Life::Transient && (spec.types[*t].is_clone || spec.types[*t].clone_if_necessary == Some(true))).collect();
+                if cands.is_empty() {
+                    continue;
+                }
+                let t = cands[next() % cands.len()];
+                let new = if spec.types[t].clone_if_necessary == Some(true) { None } else { Some(true) };
+                spec.types[t].clone_if_necessary = new;
+                spec.types[t].attr_clone = None;
+                done.push(format!("T{t} cloning policy is now {new:?}"));
+            }
+            4 => {
+                // one more input for a request-time component
+                if pipeline.is_empty() || root_visible.is_empty() {
+                    continue;
+                }
+                let c = pipeline[next() % pipeline.len()];
+                let t = root_visible[next() % root_visible.len()];
+                if spec.comps[c].inputs.iter().any(|(x, _)| *x == t) {
+                    continue;
+                }
+                let m = [Mode::Ref, Mode::Move, Mode::Mut, Mode::Ref][next() % 4];
+                spec.comps[c].inputs.push((t, m));
+                done.push(format!("x{c} additionally takes T{t} as {m:?}"));
+            }
+            5 => {
+                // a type starts holding on to one of the values its constructor borrows
+                let cands: Vec<(usize, usize)> = (0..spec.types.len())
+                    .filter(|t| spec.types[*t].life != Life::Singleton && spec.types[*t].view_of.is_none() && !spec.types[*t].is_copy && !spec.types[*t].prebuilt)
+                    .flat_map(|t| spec.types[t].inputs.iter().filter(|(j, m)| *m == Mode::Ref && spec.types[*j].view_of.is_none()).map(move |(j, _)| (t, *j)))
+                    .collect();
+                // (generic wrappers are instantiated with plain types only)
+                let cands: Vec<(usize, usize)> = cands.into_iter().filter(|(t, _)| !spec.comps.iter().any(|c| c.gens.iter().any(|(_, inner)| inner == t))).collect();
+                if cands.is_empty() {
+                    continue;
+                }
+                let (t, j) = cands[next() % cands.len()];
+                spec.types[t].view_of = Some(j);
+                done.push(format!("T{t} now holds a reference to the T{j} its constructor borrows"));
+            }
+            _ => {
+                // an error handler / observer borrows one more value
+                let eo: Vec<usize> = (0..spec.comps.len()).filter(|c| matches!(spec.comps[*c].kind, CompKind::ErrHandler { .. } | CompKind::Observer)).collect();
+                if eo.is_empty() || root_visible.is_empty() {
+                    continue;
+                }
+                let c = eo[next() % eo.len()];
+                let t = root_visible[next() % root_visible.len()];
+                if spec.comps[c].inputs.iter().any(|(x, _)| *x == t) {
+                    continue;
+                }
+                spec.comps[c].inputs.push((t, Mode::Ref));
+                done.push(format!("x{c} (error path) additionally borrows T{t}"));
+            }
+        }
+    }
+    spec.note = format!("wild: {} || {}", base.note, done.join("; "));
+    spec
 }
